@@ -916,7 +916,7 @@ func (h *vlfHarness) finish() {
 	// a bounded wait
 	buf := make([]byte, 1<<20)
 	var n int
-	for dl := time.Now().Add(2500 * time.Millisecond); ; {
+	for dl := time.Now().Add(5 * time.Second); ; {
 		n = runtime.Stack(buf, true)
 		fresh := 0
 		for _, g := range bytes.Split(buf[:n], []byte("\n\n")) {
